@@ -7,7 +7,9 @@ import (
 	"bytes"
 	"encoding/json"
 	"fmt"
+	"runtime/debug"
 	"sort"
+	"strings"
 	"testing"
 
 	"github.com/koron-go/z80/verifsim/world"
@@ -150,7 +152,7 @@ func Clone(p Prop, sc interface{}) interface{} {
 func SafeExec(p Prop, sc interface{}, env *Env) (v *Violation) {
 	defer func() {
 		if r := recover(); r != nil {
-			v = viol("panic", "%v", r)
+			v = viol(panicOracle(debug.Stack()), "%v", r)
 		}
 	}()
 	return p.Exec(sc, env)
@@ -189,4 +191,35 @@ func Fingerprint(sc interface{}) uint64 {
 		h = (h ^ uint64(c)) * 1099511628211
 	}
 	return h
+}
+
+// panicOracle classifies a recovered panic by the function it happened in: a
+// panic inside the library under test is the property's business ("panic"), a
+// panic in the simulator's own code is harness trouble (exit 2, never a
+// violation).
+func panicOracle(stack []byte) string {
+	lines := strings.Split(string(stack), "\n")
+	seenPanic := false
+	for _, l := range lines {
+		if strings.HasPrefix(l, "\t") {
+			continue // file:line
+		}
+		if strings.HasPrefix(l, "panic(") || strings.HasPrefix(l, "runtime.") {
+			if strings.HasPrefix(l, "panic(") || strings.Contains(l, "runtime.goPanic") || strings.Contains(l, "runtime.panic") || strings.Contains(l, "runtime.sigpanic") {
+				seenPanic = true
+			}
+			continue
+		}
+		if !seenPanic {
+			continue // frames of the deferred recover itself
+		}
+		if strings.HasPrefix(l, "github.com/koron-go/z80/verifsim/") {
+			return "harness"
+		}
+		if strings.HasPrefix(l, "github.com/koron-go/z80") {
+			return "panic"
+		}
+		// any other package (std library called from either side): keep looking down the stack
+	}
+	return "panic"
 }
